@@ -41,8 +41,9 @@ MANIFEST = dict(
           "forests are replicated ~1100x (thousands of traces, one trace of thousands of spans)."),
     note=("Span start times are set relative to 'now' because the engine searches traces by ingest timestamp; only query windows that "
           "contain the ingest time are used. Relative start/end times, is_anomalous and tags of the gantt view are not compared. RED "
-          "rate is accepted as entry-span count divided by 60 (as coded), 300, 5 or 1; percentiles are accepted anywhere between the "
-          "two order statistics around rank p*(n-1)/100. ProcessAggregatedDependencyGraphs (stored hourly graphs) and the Jaeger "
+          "rate is accepted as entry-span count divided by 60 (as coded), 300, 5 or 1; a percentile must lie between the two order "
+          "statistics around rank p*(n-1)/100 and all percentile answers of a run must follow one usual definition (linear, lower, higher, "
+          "nearest, midpoint). ProcessAggregatedDependencyGraphs (stored hourly graphs) and the Jaeger "
           "handlers are not covered."),
     design_ref="DESIGN.md 4/C12, docs/C12.md",
 )
